@@ -1,5 +1,5 @@
 SPECIFICATION Spec
-CONSTANTS NH = 2 GranE = 2 ES = 16 MaxLen = 2 MaxArg = 2 NV = 2 CTSet = {"raw", "elem"} Prune = FALSE Api = "c" CtrMax = 2
+CONSTANTS NH = 2 GranE = 2 ES = 16 MaxLen = 2 MaxArg = 2 NV = 2 CTSet = {"raw", "elem"} Prune = FALSE Api = "c" CtrMax = 1
 CONSTRAINT Bound
 VIEW View
 INVARIANTS TypeOK AliasOK Refines Balance AllGone
